@@ -381,7 +381,15 @@ class Verifier:
             local = dict(zip(pnames, args))
         saved = (ip.spec, ip.spec_env)
         ip.spec = True
-        ip.spec_env = SpecEnv(local, fn.__globals__, self)
+        globs = fn.__globals__
+        if fn.__closure__:
+            globs = dict(globs)
+            for nm, cell in zip(fn.__code__.co_freevars, fn.__closure__):
+                try:
+                    globs[nm] = cell.cell_contents
+                except ValueError:
+                    pass
+        ip.spec_env = SpecEnv(local, globs, self)
         try:
             return self.exec_spec_body(st, body)
         finally:
@@ -530,9 +538,51 @@ class Verifier:
         return self.resolve(path)
 
     # ---------------------------------------------------------------- calls through contracts
+    def coerce(self, st, v, spec, label):
+        """A JSON value passed where the callee's contract declares a plain kind: the view of that kind,
+        with an obligation that the JSON value indeed has it on this path."""
+        if not isinstance(v, JVal) or spec is None:
+            return v
+        tag = V.j_tag(v.term)
+        t = spec.tag
+        if t == "json" or t == "jsonov":
+            return v
+        if t == "oneof":
+            alts = [a.tag for a in spec.a]
+            if "none" in alts and self.ip.must(st, tm.Eq(tag, tm.Int(V.TAG_NONE))):
+                return None
+            for a in spec.a:
+                if a.tag != "none":
+                    return self.coerce(st, v, a, label)
+        if t == "str":
+            self.emit(st, "pre", label + ".is-str", tm.Eq(tag, tm.Int(V.TAG_STR)))
+            st.assume(tm.Eq(tag, tm.Int(V.TAG_STR)))
+            return Sym("str", V.j_sval(v.term))
+        if t == "int":
+            self.emit(st, "pre", label + ".is-int", tm.Eq(tag, tm.Int(V.TAG_INT)))
+            st.assume(tm.Eq(tag, tm.Int(V.TAG_INT)))
+            return Sym("int", V.j_ival(v.term))
+        if t == "list" and spec.a[0].tag == "str":
+            i = tm.BoundVar(tm.fresh_name("ci"), INT)
+            n = V.j_llen(v.term)
+            rng = tm.And(tm.Le(tm.Int(0), i), tm.Lt(i, n))
+            allstr = tm.ForAll([i], tm.Implies(rng, tm.Eq(V.j_tag(V.j_lget(v.term, i)), tm.Int(V.TAG_STR))))
+            goal = tm.And(tm.Eq(tag, tm.Int(V.TAG_LIST)), allstr)
+            self.emit(st, "pre", label + ".is-list-of-str", goal)
+            st.assume(goal)
+            sl = j_strlist(v.term)
+            st.assume(tm.Eq(tm.Len(sl), n))
+            st.assume(tm.Le(tm.Int(0), n))
+            st.assume(tm.ForAll([i], tm.Implies(rng, tm.Eq(tm.Nth(sl, i), V.j_sval(V.j_lget(v.term, i))))))
+            return Sym(("list", "str"), sl)
+        raise Unsupported("coercion of JSON value to %r" % (spec,))
+
     def apply_contract(self, st, f, cls, args, kwargs, node):
         ip = self.ip
         bound = ip.bind_args(f, args, kwargs, st)
+        for pn, pv in list(bound.items()):
+            if isinstance(pv, JVal) and pn in cls.params:
+                bound[pn] = self.coerce(st, pv, cls.params[pn], "%s.%s" % (cls.qualname, pn))
         old = Opaque("old", dict(bound, g=self.ghost_view(st)))
         spec_env = dict(bound, g=self.ghost_view(st), old=old)
         # precondition: obligation at the call site, then assumed
@@ -1151,6 +1201,9 @@ def _byte(ip, st, x):
 @spec_builtin("field")
 def _field(ip, st, obj, name):
     return st.fields(obj)[name]
+
+
+j_strlist = tm.FunDecl("j.strlist", [J], tm.SeqOf(STR))
 
 
 class RecSpec:
